@@ -190,9 +190,14 @@ package index
 // Fallback (C03/C12): the snapshots are listed newest first; the writer walks them oldest to
 // newest and ends up on the NEWEST LOADABLE one, skipping every one that fails to load; it
 // reports an error only when snapshots exist and none loads.
+// rootsInstalled counts installations of a new root snapshot (definitional: replaceRoot is the one place)
+//@ ghost var rootsInstalled int
+// ackAtInstall: the number of roots installed at the moment the batch was last released (`applied` closed)
+//@ ghost var ackAtInstall int
 //@ func Writer.replaceRoot
-//@   props C03 C12
+//@   props C03 C12 C05
 //@   opaque
+//@   effect rootsInstalled == old(rootsInstalled) + 1
 
 //@ func Writer.loadSnapshots
 //@   props C03 C12
@@ -523,11 +528,13 @@ package index
 // deletes that happened while it was being built
 // ---------------------------------------------------------------------------
 //@ func Writer.introduceMerge(nextMerge, introduceSnapshotEpoch)
-//@   props C06 C05
+//@   props C06 C05 C04
 //@   requires [merged-segments-are-recorded-with-their-snapshot] forall e uint64 :: has(nextMerge.old, e) ==> (nextMerge.old[e] != nil && allocated(nextMerge.old[e]) && nextMerge.old[e].segment != nil && allocated(nextMerge.old[e].deleted) && allocated(base(nextMerge.oldNewDocNums[e])))
 //@   effect {C05} lastEpochHanded == introduceSnapshotEpoch
 //@   heap_wf
 //@   requires s != nil && nextMerge != nil
+//@   at call builtin.close: set ackAtInstall = rootsInstalled
+//@   ensures {C05} [the-requester-is-told-only-after-the-root-is-installed] ackAtInstall > old(rootsInstalled)
 //@   modifies *
 //@   at call StoreUint64: assert [segments-that-vanished-from-the-root-are-obsoleted-entirely-0] forall e uint64, d uint32 :: (has(nextMerge.old, e) && nextMerge.old[e] != nil && nextMerge.old[e].deleted != newSegmentDeleted && (uint64(d) < segCount(iref(nextMerge.old[e].segment.Segment)) && !(nextMerge.old[e].deleted != nil && bmHas[nextMerge.old[e].deleted][d]))) ==> bmHas[newSegmentDeleted][uint32(nextMerge.oldNewDocNums[e][d])]
 //@   at call replaceRoot: assert [segments-that-vanished-from-the-root-are-obsoleted-entirely] forall e uint64, d uint32 :: (has(nextMerge.old, e) && nextMerge.old[e] != nil && nextMerge.old[e].deleted != newSegmentDeleted && (uint64(d) < segCount(iref(nextMerge.old[e].segment.Segment)) && !(nextMerge.old[e].deleted != nil && bmHas[nextMerge.old[e].deleted][d]))) ==> bmHas[newSegmentDeleted][uint32(nextMerge.oldNewDocNums[e][d])]
@@ -535,6 +542,11 @@ package index
 //@   at call AddRef: assert [a-merged-segment-does-not-stay-beside-its-merge] !segmentIsGoingAway
 //@   at call AddRef: assert [a-segment-that-stays-is-taken-over-unchanged] len(newSnapshot.segment) > 0 && newSnapshot.segment[len(newSnapshot.segment) - 1] != nil && newSnapshot.segment[len(newSnapshot.segment) - 1].id == root.segment[i].id && newSnapshot.segment[len(newSnapshot.segment) - 1].segment == root.segment[i].segment && newSnapshot.segment[len(newSnapshot.segment) - 1].deleted == root.segment[i].deleted
 //@   at call replaceRoot: assert [new-root-carries-the-new-epoch] newSnapshot.epoch == introduceSnapshotEpoch
+// a staying segment takes the running offset and advances it by its PHYSICAL size (deleted documents keep their numbers)
+//@   at call Persisted: assert [offset-advances-by-the-physical-size] (0 <= i && i < len(root.segment) && !segmentIsGoingAway) ==> (len(newSnapshot.offsets) > 0 && running == uint64(newSnapshot.offsets[len(newSnapshot.offsets) - 1] + segCount(iref(root.segment[i].segment.Segment))))
+// the references of the segments involved are given back by the owners of the old root and of the merge task, not here:
+// while the new root is being built no segment reference is released
+//@   at call replaceRoot: assert {C06 C04} [no-segment-reference-is-released-while-the-new-root-is-built] segReleased == old(segReleased)
 //@   loop 2
 //@     invariant fresh(newSegmentDeleted) && newSegmentDeleted != nil && nextMerge != nil
 //@     invariant [the-new-offsets-table-is-private] newSnapshot != nil && fresh(newSnapshot) && ((cap(newSnapshot.offsets) == 0 && isnil(base(newSnapshot.offsets))) || fresh(base(newSnapshot.offsets)))
@@ -558,6 +570,8 @@ package index
 //@   effect {C05} lastEpochHanded == introduceSnapshotEpoch
 //@   heap_wf
 //@   requires s != nil && persist != nil
+//@   at call builtin.close: set ackAtInstall = rootsInstalled
+//@   ensures {C05} [the-requester-is-told-only-after-the-root-is-installed] ackAtInstall > old(rootsInstalled)
 //@   modifies *
 //@   at call replaceRoot: assert [new-root-carries-the-new-epoch] newSnapshot.epoch == introduceSnapshotEpoch
 //@   at call replaceRoot: assert [same-segments-same-deletes-position-by-position] len(newSnapshot.segment) == len(root.segment) && (forall k int :: (0 <= k && k < len(root.segment)) ==> (newSnapshot.segment[k] != nil && newSnapshot.segment[k].id == root.segment[k].id && newSnapshot.segment[k].deleted == root.segment[k].deleted))
@@ -596,6 +610,9 @@ package index
 //@   at call AddRef: assert [earlier-deletes-are-kept] forall v uint32 :: (root.segment[i].deleted != nil && bmHas[root.segment[i].deleted][v]) ==> (newss.deleted != nil && bmHas[newss.deleted][v])
 //@   at call AddRef: assert [the-batch-deletes-are-applied] forall v uint32 :: bmHas[delta][v] ==> (newss.deleted != nil && bmHas[newss.deleted][v])
 //@   at call replaceRoot: assert [new-root-carries-the-new-epoch] newSnapshot.epoch == introduceSnapshotEpoch
+// the batch is released (`applied` closed; an unsafe Batch returns on that) only once the root that contains it is installed
+//@   at call builtin.close: set ackAtInstall = rootsInstalled
+//@   ensures {C05} [a-batch-is-released-only-after-its-root-is-installed] err == nil ==> ackAtInstall > old(rootsInstalled)
 //@   at call Persisted: assert [a-segment-is-left-out-only-when-no-document-of-it-is-live] (len(newSnapshot.segment) > 0 && newSnapshot.segment[len(newSnapshot.segment) - 1] == newss) || int64(uint64(segCount(iref(newss.segment.Segment)) - ite(newss.deleted != nil, bmCard(newss.deleted), 0))) <= 0
 //@   at call replaceRoot: assert [the-batch-segment-comes-last] next.data != nil ==> (len(newSnapshot.segment) > 0 && newSnapshot.segment[len(newSnapshot.segment) - 1].id == next.id && newSnapshot.segment[len(newSnapshot.segment) - 1].segment == next.data && newSnapshot.segment[len(newSnapshot.segment) - 1].deleted == nil)
 
